@@ -107,6 +107,8 @@ def _resolve(case):
         s = dict(s)
         if case.get("allFW") and s["kind"] == "iso":
             s["base"] = "FW"  # armi/tests/ISOAA: file-wide chi, five scatter blocks, its own group bounds
+        if case.get("allFwChi") and s["kind"] == "iso":
+            s["fwChi"] = True  # every ISOTXS of the set relies on a file-wide chi
         s["ng"] = max(1, case["ng"] + s.pop("ngDelta", 0))
         s["gg"] = max(1, case["gg"] + s.pop("ggDelta", 0))
         specs.append(s)
@@ -322,6 +324,56 @@ def _classify_nuclide_change(before, after, empty_kind):
     return "nuclides-added"
 
 
+_KIND_PROPS = {
+    "iso": ("neutronEnergyUpperBounds", "neutronVelocity"),
+    "gam": ("gammaEnergyUpperBounds",),
+    "pmx": ("neutronEnergyUpperBounds", "gammaEnergyUpperBounds", "neutronDoseConversionFactors", "gammaDoseConversionFactors"),
+}
+
+
+def _reread_check(out, lib, snap, prefix, what, tag):
+    """Consequence of a lossless merge: each kind of data that every nuclide holds can be written with armi's writer
+    and comes back equal from armi's reader.  (Appends to the library's file names: call it last.)"""
+    from vp import env
+
+    done = []
+    for kind in L.KINDS:
+        if not snap["labels"] or not all(L.has_kind(snap["nucs"][lab], kind) for lab in snap["labels"]):
+            continue
+        path = os.path.join(env.scratch_dir(), "%s_back.%s" % (tag, kind))
+        try:
+            try:
+                L.writer(kind)(lib, path)
+            except OSError as exc:
+                out.fail(prefix + "/merged-library-not-writable", "%s: %s writer fails: %s" % (what, kind, str(exc)[-300:]))
+                continue
+            try:
+                back = L.library_snapshot(L.reader(kind)(path))
+            except OSError as exc:
+                out.fail(prefix + "/merged-file-not-readable", "%s: the %s file written from the merged library cannot be read: %s"
+                         % (what, kind, str(exc)[-300:]))
+                continue
+        finally:
+            _cleanup([path])
+        done.append(kind)
+        got = {
+            "labels": back["labels"],
+            "props": {p: back["props"][p] for p in _KIND_PROPS[kind]},
+            "meta": {k: v for k, v in back["meta"][kind].items() if k != "<fileNames>"},
+            "nucs": {lab: back["nucs"][lab][kind] for lab in back["labels"]},
+        }
+        want = {
+            "labels": snap["labels"],
+            "props": {p: snap["props"][p] for p in _KIND_PROPS[kind]},
+            "meta": {k: v for k, v in snap["meta"][kind].items() if k != "<fileNames>"},
+            "nucs": {lab: snap["nucs"][lab][kind] for lab in snap["labels"]},
+        }
+        if got != want:
+            out.fail(prefix + "/merged-file-differs", "%s: %s file written from the merged library reads back different: %s"
+                     % (what, kind, L.diff_paths(got, want, kind)))
+    return done
+
+
 def _empty_kinds():
     from armi.nuclearDataIO import xsLibraries, xsNuclides
 
@@ -339,6 +391,12 @@ def _groups(small, full):
     return st.tuples(st.integers(1, small), st.sampled_from([0] * 11 + [1])).map(lambda t: full if t[1] else t[0])
 
 
+def _shift(none_weight):
+    """False (mostly), a list of bound indices to move (k of n boundaries), or True (all boundaries)."""
+    return st.tuples(st.sampled_from([0] * none_weight + [1, 1, 1, 2]), st.lists(st.integers(0, 6), min_size=1, max_size=3)).map(
+        lambda t: False if t[0] == 0 else (t[1] if t[0] == 1 else True))
+
+
 def _lib_spec(kinds=("iso", "iso", "gam", "pmx"), pool=(0, 1, 2, 3, 4, 7, 24)):
     return st.fixed_dictionaries(
         {
@@ -350,8 +408,8 @@ def _lib_spec(kinds=("iso", "iso", "gam", "pmx"), pool=(0, 1, 2, 3, 4, 7, 24)):
             "scale": st.integers(0, 3),
             "ngDelta": st.sampled_from([0] * 19 + [1]),
             "ggDelta": st.sampled_from([0] * 19 + [1]),
-            "shiftE": st.sampled_from([False] * 29 + [True]),
-            "shiftG": st.sampled_from([False] * 29 + [True]),
+            "shiftE": _shift(14),
+            "shiftG": _shift(24),
             "band": st.sampled_from([0, 0, 1, 2]),
             "dropRx": st.lists(st.integers(0, 4), max_size=2),
             "dropBlocks": st.lists(st.integers(0, 5), max_size=2),
@@ -385,15 +443,27 @@ def merge_strategy(tier):
     free = st.lists(_lib_spec(), min_size=2, max_size=4)
     single = st.lists(_lib_spec(), min_size=1, max_size=1)
     fams = st.lists(_family(), min_size=2, max_size=3).map(lambda ls: [s for fam in ls for s in fam][:4])
+
+    def chi_set(t):
+        """2-3 ISOTXS of different xs IDs that all rely on a file-wide chi and hold a fissile nuclide (+ maybe a GAMISO)."""
+        isos, extra = t
+        res = [dict(s, kind="iso", suffix=i, fwChi=True, dropFission=False, nucs=[s["scale"] % 3] + s["nucs"], ngDelta=0, shiftE=False)
+               for i, s in enumerate(isos)]
+        if extra["kind"] == "gam":
+            res.append(dict(extra, suffix=0, ggDelta=0, shiftE=False))
+        return res
+
+    chis = st.tuples(st.lists(_lib_spec(), min_size=2, max_size=3), _lib_spec()).map(chi_set)
     return st.fixed_dictionaries(
         {
             "ng": _groups(6, 33),
             "gg": _groups(4, 21),
             "startEmpty": st.booleans(),
             "allFW": st.sampled_from([False] * 7 + [True]),
+            "allFwChi": st.sampled_from([False, False, False, True]),
             # (one_of would merge repeated alternatives, so the weights are drawn explicitly)
-            "libs": st.tuples(st.integers(0, 11), free, fams, single).map(
-                lambda t: t[3] if t[0] == 0 else t[1] if t[0] <= 4 else t[2]),
+            "libs": st.tuples(st.integers(0, 13), free, fams, single, chis).map(
+                lambda t: t[3] if t[0] == 0 else t[1] if t[0] <= 4 else t[2] if t[0] <= 9 else t[4]),
         }
     )
 
@@ -498,6 +568,8 @@ def merge_execute(case):
                                      "(a library without velocities was merged first)" % what)
                             skip = ("neutronVelocity",)
                     if not _compare(out, after, want, "merge", what, skip_props=skip):
+                        if clean:  # the consequence, judged without the model: can the merged library still be written/read?
+                            _reread_check(out, target, after, "merge", what, "m")
                         aborted = True
                         break
                 else:
@@ -559,8 +631,11 @@ def merge_execute(case):
                         aborted = True
                         break
             if not aborted and clean and model.members:
-                finals.append((list(perm), last if last is not None else L.library_snapshot(target),
-                               model.presented_without_velocity))
+                final = last if last is not None else L.library_snapshot(target)
+                finals.append((list(perm), final, model.presented_without_velocity))
+                if compatible and (n <= 3 or len(finals) % 5 == 1):
+                    if _reread_check(out, target, final, "merge", what0, "m"):
+                        labs.add("written-back")
         # order independence, judged without the model: every complete order of a compatible set gives one snapshot
         if compatible and len(finals) > 1:
             ref_perm, ref, _ = finals[0]
@@ -614,7 +689,8 @@ def macro_strategy(tier):
             "split": st.lists(st.booleans(), min_size=6, max_size=6),
             "empty": st.sampled_from([False] * 14 + [True]),
             "missing": st.sampled_from(["none", "none", "absent", "otherSuffix", "unknownName"]),
-            "minDens": st.sampled_from([0.0, 1e-13]),
+            "minDens": st.sampled_from([0.0, 1e-13, 1e-3, 1e-3]),
+            "trace": st.integers(0, 5),  # with minDens 1e-3 this nuclide is present at 2.5e-4
             "realBlock": st.booleans(),
         }
     )
@@ -641,6 +717,9 @@ class _DuckBlock:
 
     def getNumberDensities(self):
         return dict(self._d)
+
+    def getNumberDensity(self, name):
+        return self._d.get(name, 0.0)
 
 
 def _real_block(dens, suffix):
@@ -705,7 +784,12 @@ def macro_execute(case):
         def comp(dens):
             return {names[i]: float(dens[i]) for i in range(nn)}
 
-        N1 = comp([0.0] * 6 if case.get("empty") else case["dens"])
+        d1 = [0.0] * 6 if case.get("empty") else list(case["dens"])
+        trace = case["minDens"] >= 1e-6 and not case.get("empty")
+        if trace:
+            d1[case.get("trace", 0) % nn] = 2.5e-4
+            out.label("trace-nuclide-below-minimum")
+        N1 = comp(d1)
         N2 = comp(case["dens2"])
         a, b = case["a"], case["b"]
         N3 = {k: a * N1[k] + b * N2[k] for k in N1}
@@ -849,47 +933,32 @@ def macro_execute(case):
                 except TypeError as exc:
                     out.fail(sig_empty, "creator on the empty %s block raises TypeError: %s" % (bname, str(exc)[:120]))
                 continue
-            dens = dict(zip(names, blk.getNuclideNumberDensities(names)))
+            dens = {k: float(v) for k, v in zip(names, blk.getNuclideNumberDensities(names))}
+            minD = case["minDens"]
+            # the composition the creator selects: nuclides above minimumNuclideDensity (vectors AND scatter matrices)
+            sel = {k: (v if v > minD else 0.0) for k, v in dens.items()}
+            keys = sorted(k for k, v in sel.items() if v)
+            if not keys:
+                labs.add("all-below-minimum")
+                continue
+            chi_coll = [x.micros for x in iso]
             for libType, nucs, G in (("micros", iso, ng), ("gammaXS", gam, gg)):
-                mc = xc.MacroscopicCrossSectionCreator(minimumNuclideDensity=case["minDens"])
-                m = mc.createMacrosFromMicros(lib, blk, libType=libType)
                 coll = [getattr(x, libType) for x in nucs]
-                what = "%s block, %s" % (bname, libType)
-                vec = {}
-                mags = {}
-                for rx in xc.BASIC_XS + xc.TOTAL_XS:
-                    if rx == xc.NUSIGF:
-                        arrs = [np.asarray(c.fission, dtype=float) * np.asarray(c.neutronsPerFission, dtype=float) for c in coll]
-                    else:
-                        arrs = [np.asarray(getattr(c, rx), dtype=float) for c in coll]
-                    vec[rx], mags[rx] = refsum(dens, arrs)
-                    _close(out, m[rx], vec[rx], mags[rx], "creator/weighted-sum", "%s %s" % (what, rx))
-                absw = sum(vec[rx] for rx in xc.ABSORPTION_XS)
-                absm = sum(mags[rx] for rx in xc.ABSORPTION_XS)
-                _close(out, m.absorption, absw, absm, "creator/absorption", what)
-                _close(out, m.absorption, sum(np.asarray(m[rx]) for rx in reversed(xc.ABSORPTION_XS)), absm,
-                       "creator/absorption", what + " (sum of the macros' own parts)")
-                mats = {}
-                for rx in xc.BASIC_SCAT_MATRIX:
-                    arrs = [np.zeros((G, G)) if getattr(c, rx) is None else getattr(c, rx).toarray() for c in coll]
-                    mats[rx], mg = refsum(dens, arrs)
-                    mags[rx] = mg
-                    _close(out, m[rx].toarray(), mats[rx], mg, "creator/scatter-matrix", "%s %s" % (what, rx))
-                tot = mats["elasticScatter"] + mats["inelasticScatter"] + 2.0 * mats["n2nScatter"]
-                totm = mags["elasticScatter"] + mags["inelasticScatter"] + 2.0 * mags["n2nScatter"]
-                _close(out, m.totalScatter.toarray(), tot, totm, "creator/total-scatter", what)
-                rem = absw - vec["n2n"] + tot.sum(axis=0) - np.diag(tot)
-                remm = absm + mags["n2n"] + totm.sum(axis=0) + np.diag(totm)
-                _close(out, m.removal, rem, remm, "creator/removal", what)
-                # block-average chi (docstring formula, neutron data)
-                num = np.zeros(ng)
-                den = 0.0
-                for i in reversed(range(nn)):
-                    f = float(np.sum(np.asarray(iso[i].micros.neutronsPerFission) * np.asarray(iso[i].micros.fission)))
-                    num = num + np.asarray(iso[i].micros.chi, dtype=float) * dens[names[i]] * f
-                    den += dens[names[i]] * f
-                chi = num / den if den != 0.0 else np.zeros(ng)
-                _close(out, m.chi, chi, np.abs(chi) * 10 + 1e-12, "creator/block-chi", what)
+                what = "%s block, %s, minimumNuclideDensity=%g" % (bname, libType, minD)
+                mc = xc.MacroscopicCrossSectionCreator(minimumNuclideDensity=minD)
+                m = mc.createMacrosFromMicros(lib, blk, libType=libType)
+                _creator_compare(out, np, xc, m, coll, chi_coll, names, sel, G, ng, what, chi_dens=dens)
+                _close(out, m.absorption, sum(np.asarray(m[rx]) for rx in reversed(xc.ABSORPTION_XS)),
+                       sum(np.abs(np.asarray(m[rx])) for rx in xc.ABSORPTION_XS), "creator/absorption",
+                       what + " (sum of the macros' own parts)")
+                # a subset of the block's nuclides through nucNames: vectors, scatter matrices and removal all follow it
+                if len(keys) >= 2:
+                    sub = keys[(case["order"] % 2) :: 2]
+                    ms = mc.createMacrosFromMicros(lib, blk, nucNames=list(sub), libType=libType)
+                    subd = {k: (v if k in sub else 0.0) for k, v in sel.items()}
+                    _creator_compare(out, np, xc, ms, coll, chi_coll, names, subd, G, ng, "%s, nucNames=%s" % (what, sub),
+                                     chi_dens=dens)
+                    labs.add("nucNames-subset")
             # additivity through the nucNames argument
             if len(nz(N1)) >= 2:
                 mc = xc.MacroscopicCrossSectionCreator()
@@ -961,7 +1030,8 @@ def workdir_strategy(tier):
             "dropRx": st.lists(st.integers(0, 4), max_size=2),
             "dropBlocks": st.lists(st.integers(0, 5), max_size=2),
             "fwChi": st.sampled_from([False, False, False, True]),
-            "ngDelta": st.sampled_from([0] * 7 + [1]),
+            "ngDelta": st.sampled_from([0] * 9 + [1]),
+            "shift": _shift(12),
         }
     )
     return st.fixed_dictionaries(
@@ -969,6 +1039,7 @@ def workdir_strategy(tier):
             "ng": st.integers(1, 6),
             "gg": st.integers(1, 4),
             "gamma": st.booleans(),
+            "allFwChi": st.sampled_from([False, False, True]),
             "suffixes": st.permutations([0, 1, 2, 3]),
             "families": st.lists(fam, min_size=1, max_size=3),
             "preloaded": st.booleans(),
@@ -992,7 +1063,9 @@ def workdir_execute(case):
         for f, sfx in zip(case["families"], case["suffixes"]):
             xsid = L.SUFFIXES[sfx]
             common = dict(base=f["base"], suffix=sfx, nucs=f["nucs"], band=f["band"], dropRx=f["dropRx"],
-                          dropBlocks=f["dropBlocks"], fwChi=f["fwChi"], ng=max(1, case["ng"] + f["ngDelta"]), gg=case["gg"])
+                          dropBlocks=f["dropBlocks"], fwChi=f["fwChi"] or case.get("allFwChi", False),
+                          ng=max(1, case["ng"] + f["ngDelta"]), gg=case["gg"],
+                          shiftE=f.get("shift", False), shiftG=f.get("shift", False))
             files = [("iso", os.path.join(d, "ISO" + xsid))]
             if case["gamma"]:
                 files += [("gam", os.path.join(d, xsid + ".gamiso")), ("pmx", os.path.join(d, xsid + ".pmatrx"))]
@@ -1025,7 +1098,8 @@ def workdir_execute(case):
         if not out.check(refused is None, "workdir/compatible-refused",
                          lambda: "refused with %s: %s" % (type(refused).__name__, str(refused)[:200])):
             return out
-        _compare(out, L.library_snapshot(lib), model.expected(), "workdir", "merged working directory")
+        merged = L.library_snapshot(lib)
+        _compare(out, merged, model.expected(), "workdir", "merged working directory")
         want_vel = {x: src[[p for _k, p in flat].index(files[0][1])]["props"]["neutronVelocity"] for x, files in fams}
         got_vel = {str(k): L.norm(v) for k, v in vel.items()}
         out.check(got_vel == want_vel, "workdir/velocities", lambda: "returned velocities %s, files hold %s" % (got_vel, want_vel))
@@ -1034,6 +1108,8 @@ def workdir_execute(case):
             before = L.library_snapshot(lib)
             xsLibraries.mergeXSLibrariesInWorkingDirectory(lib, mergeGammaLibs=case["gamma"], alternateDirectory=d)
             _compare(out, L.library_snapshot(lib), before, "workdir/second-call", "second call on the same directory")
+        if _reread_check(out, lib, merged, "workdir", "merged working directory", "w"):
+            out.label("written-back")
     finally:
         shutil.rmtree(d, ignore_errors=True)
         _global_check(out, guard)
@@ -1079,9 +1155,13 @@ def _windows(labels, xsid):
     return res
 
 
-def _creator_compare(out, np, xc, m, coll, chi_coll, names, dens, G, ng, what):
-    """createMacrosFromMicros output against sums over exactly the collections ``coll`` (one per name)."""
+def _creator_compare(out, np, xc, m, coll, chi_coll, names, dens, G, ng, what, chi_dens=None):
+    """createMacrosFromMicros output against sums over exactly the collections ``coll`` (one per name).
+
+    ``dens`` is the selected composition (nucNames, minimumNuclideDensity applied); ``chi_dens`` the whole block's
+    (computeBlockAverageChi is documented to use the block)."""
     nn = len(names)
+    chi_dens = dens if chi_dens is None else chi_dens
 
     def refsum(arrs):
         tot = np.zeros(arrs[0].shape)
@@ -1119,8 +1199,8 @@ def _creator_compare(out, np, xc, m, coll, chi_coll, names, dens, G, ng, what):
     for i in reversed(range(nn)):
         c = chi_coll[i]
         f = float(np.sum(np.asarray(c.neutronsPerFission) * np.asarray(c.fission)))
-        num = num + np.asarray(c.chi, dtype=float) * dens[names[i]] * f
-        den += dens[names[i]] * f
+        num = num + np.asarray(c.chi, dtype=float) * chi_dens[names[i]] * f
+        den += chi_dens[names[i]] * f
     chi = num / den if den != 0.0 else np.zeros(ng)
     _close(out, m.chi, chi, np.abs(chi) * 10 + 1e-12, "creator/block-chi", what)
 
